@@ -16,28 +16,39 @@ import (
 
 // sender / target tokens (the same numbering as spec/UdpNatGen.tla)
 const (
-	tokA    = 1  // 127.0.0.1:p       IPv4, not DNS
-	tokB    = 2  // 127.53.x.y:53     IPv4, DNS port
-	tokF    = 3  // [fd00::2]:p       forbidden destination (ULA); only a destination, never a sender
-	tokC    = 4  // [::1]:p           IPv6, not DNS
-	tokA2   = 6  // 127.0.0.1:p'      another port of A's host
-	tokS    = 7  // 127.0.0.9:p       stranger
-	tokS53  = 8  // 127.53.x.y+1:53   stranger on port 53
-	tokZ    = 9  // [fe80::..%eth0]:p stranger bound to the zoned link-local address (C18)
-	tokE    = 10 // 192.0.2.2:p       public IPv4 on eth0
-	natT    = 300 * time.Millisecond
-	dnsT    = 17 * time.Second
-	boundMs = 500
+	tokA   = 1  // 127.0.0.1:p       IPv4, not DNS
+	tokB   = 2  // 127.53.x.y:53     IPv4, DNS port
+	tokF   = 3  // [fd00::2]:p       forbidden destination (ULA); only a destination, never a sender
+	tokC   = 4  // [::1]:p           IPv6, not DNS
+	tokA2  = 6  // 127.0.0.1:p'      another port of A's host
+	tokS   = 7  // 127.0.0.9:p       stranger
+	tokS53 = 8  // 127.53.x.y+1:53   stranger on port 53
+	tokZ   = 9  // [fe80::..%eth0]:p stranger bound to the zoned link-local address (C18)
+	tokE   = 10 // 192.0.2.2:p       public IPv4 on eth0
+	// destinations named by HOST NAME (SOCKS type 3); they are destinations only, the datagram arrives at the socket the
+	// name resolves to
+	tokNLoop = 11 // localhost:pA          (/etc/hosts -> 127.0.0.1: forbidden for RequirePublicIP)
+	tokNPub  = 12 // pub.verif.test:pE     (fake DNS -> 192.0.2.2: allowed)
+	tokNPriv = 13 // priv.verif.test:pF    (fake DNS -> fd00::2, ULA: forbidden)
+	natT     = 300 * time.Millisecond
+	dnsT     = 17 * time.Second
+	boundMs  = 500
 )
 
 type world struct {
 	socks    map[int]*sock // by token
 	rng      *rand.Rand
 	allSalts map[string]bool // every salt seen in replies during the whole run
+	names    map[int]nameDst // host-name destinations
+}
+
+type nameDst struct {
+	host string
+	sock int // token of the socket the name resolves to
 }
 
 func newWorld(rng *rand.Rand, withZoned bool) *world {
-	w := &world{socks: map[int]*sock{}, rng: rng, allSalts: map[string]bool{}}
+	w := &world{socks: map[int]*sock{}, rng: rng, allSalts: map[string]bool{}, names: map[int]nameDst{}}
 	must := func(tok int, name, network, addr string) {
 		s, err := newSock(tok, name, network, addr)
 		if err != nil {
@@ -72,6 +83,20 @@ func newWorld(rng *rand.Rand, withZoned bool) *world {
 	}
 	if w.socks[tokB] == nil {
 		hx.Fatal("could not bind a loopback port 53")
+	}
+	// host names: net.ResolveUDPAddr in the packet handler goes through net.DefaultResolver -> in-process fake DNS
+	zone := map[string][]net.IP{}
+	w.names[tokNLoop] = nameDst{"localhost", tokA}
+	if w.socks[tokE] != nil {
+		zone["pub.verif.test"] = []net.IP{net.IPv4(192, 0, 2, 2).To4()}
+		w.names[tokNPub] = nameDst{"pub.verif.test", tokE}
+	}
+	if w.socks[tokF] != nil {
+		zone["priv.verif.test"] = []net.IP{net.ParseIP("fd00::2").To16()}
+		w.names[tokNPriv] = nameDst{"priv.verif.test", tokF}
+	}
+	if _, err := startFakeDNS(zone); err != nil {
+		hx.Fatal("fake DNS: %v", err)
 	}
 	if withZoned {
 		if z, ok := linkLocalZone(); ok {
@@ -123,7 +148,7 @@ type run struct {
 	rng       *rand.Rand
 	kr        *keyring
 	rec       *recorder
-	lconn     *net.UDPConn
+	lport     int
 	cc        *countingConn
 	handled   int64
 	done      chan struct{}
@@ -144,6 +169,8 @@ type run struct {
 	replies   map[int]replyInfo
 	promReg   *prometheus.Registry
 	notes     []string
+	curDst    int // destination token named by the datagram of the current step
+	closeL    func() error
 	floodEmit int64
 }
 
@@ -152,7 +179,21 @@ func (r *run) msCeil(t time.Time) int {
 	return int(math.Ceil(float64(t.Sub(r.start)) / float64(time.Millisecond)))
 }
 
+// runOpts: validator "loopback" (loopback allowed in addition to RequirePublicIP) or "default" (the handler's own
+// RequirePublicIP, SetTargetIPValidator is not called); viaManager: the packet conn comes from
+// service.NewListenerManager().ListenPacket (the production path of cmd/outline-ss-server) instead of net.ListenUDP
+type runOpts struct {
+	prom       bool
+	validator  string
+	viaManager bool
+}
+
 func newRun(w *world, tr *hx.Trace, rng *rand.Rand, withProm bool) *run {
+	return newRunOpts(w, tr, rng, runOpts{prom: withProm, validator: "loopback"})
+}
+
+func newRunOpts(w *world, tr *hx.Trace, rng *rand.Rand, o runOpts) *run {
+	withProm := o.prom
 	r := &run{w: w, tr: tr, rng: rng, clients: map[int]*sock{}, assocs: map[int]*assocInfo{}, liveOf: map[int]int{},
 		sockTok: map[string]int{}, sockOwn: map[string]int{}, saltTok: map[string]int{}, cliAddr: map[string]int{},
 		keyByID: map[string]int{}, pending: map[int][]byte{}, replies: map[int]replyInfo{}}
@@ -171,12 +212,25 @@ func newRun(w *world, tr *hx.Trace, rng *rand.Rand, withProm bool) *run {
 		r.rec.inner = sm
 	}
 	ph := service.NewPacketHandler(natT, r.kr.list, r.rec, r.rec)
-	ph.SetTargetIPValidator(loopbackOK)
-	lc, err := listenUDP("udp4", "0.0.0.0:0")
-	if err != nil {
-		hx.Fatal("listen: %v", err)
+	if o.validator != "default" {
+		ph.SetTargetIPValidator(loopbackOK)
 	}
-	r.lconn = lc
+	var lc net.PacketConn
+	if o.viaManager {
+		pc, err := service.NewListenerManager().ListenPacket("0.0.0.0:0")
+		if err != nil {
+			hx.Fatal("ListenerManager.ListenPacket: %v", err)
+		}
+		lc = pc
+	} else {
+		uc, err := listenUDP("udp4", "0.0.0.0:0")
+		if err != nil {
+			hx.Fatal("listen: %v", err)
+		}
+		lc = uc
+	}
+	r.lport = lc.LocalAddr().(*net.UDPAddr).Port
+	r.closeL = lc.Close
 	r.cc = &countingConn{PacketConn: lc}
 	r.done = make(chan struct{})
 	go func() {
@@ -204,7 +258,7 @@ func newRun(w *world, tr *hx.Trace, rng *rand.Rand, withProm bool) *run {
 }
 
 func (r *run) listenerAddrFor(c *sock) *net.UDPAddr {
-	port := r.lconn.LocalAddr().(*net.UDPAddr).Port
+	port := r.lport
 	ip := c.addr.IP
 	if ip.IsLoopback() {
 		ip = net.IPv4(127, 0, 0, 1)
@@ -331,7 +385,11 @@ func (r *run) collect(did, sid int, stepAssoc int, sent time.Time) {
 					ai.hiDl = now.Add(to)
 				}
 			}
-			r.tr.Emit(map[string]any{"ev": "TRecv", "did": did, "a": a, "sock": r.sockTok[from], "dst": t, "sz": len(d.data), "p": p,
+			dstTok := t
+			if nd, ok := r.w.names[r.curDst]; ok && nd.sock == t {
+				dstTok = r.curDst // the datagram named a host that resolves to this socket
+			}
+			r.tr.Emit(map[string]any{"ev": "TRecv", "did": did, "a": a, "sock": r.sockTok[from], "dst": dstTok, "sz": len(d.data), "p": p,
 				"ts": ts, "t": r.msCeil(now), "from": d.from.String()})
 		}
 	}
